@@ -142,6 +142,23 @@ impl Driver for C17 {
         };
         for case in 0..250 {
             let mut spec = gen_lm(&mut rng, &opts);
+            {
+                // constants, coefficients, right-hand sides and bounds of a few millionths are numbers like any other
+                use rand::Rng;
+                if spec.sense != "satisfy" && rng.gen_range(0..8) == 0 {
+                    spec.offset = [0.000004, -0.0000002, 0.00000951, -0.000003][rng.gen_range(0..4)];
+                }
+                if rng.gen_range(0..10) == 0 && !spec.rows.is_empty() && !spec.vars.is_empty() {
+                    let (i, j) = (rng.gen_range(0..spec.rows.len()), rng.gen_range(0..spec.vars.len()));
+                    spec.rows[i].a[j] = [0.000004, -0.0000002, 0.0000095][rng.gen_range(0..3)];
+                    if rng.gen_bool(0.5) {
+                        spec.rows[i].b = [0.000003, -0.0000007][rng.gen_range(0..2)];
+                    }
+                    if spec.sense != "satisfy" {
+                        spec.obj[j] = [0.000002, -0.0000061][rng.gen_range(0..2)];
+                    }
+                }
+            }
             // every fifth case: a model compiled by the Linearizer from a source whose variables are
             // declared out of alphabetical order (the column list is sorted, the domain is not)
             let compiled: Option<LinearModel> = if case % 5 == 4 {
